@@ -48,7 +48,14 @@ pub fn child(a: &Args) {
     let href: Option<SparseMatrix> = text.as_ref().and_then(|t| guarded(|| SparseMatrix::from_alist(t).ok()).unwrap_or(None));
     let enc_ref = href.as_ref().and_then(|h| if h.num_rows() >= 1 && h.num_cols() >= h.num_rows() { guarded(|| Encoder::from_h(h).ok()).unwrap_or(None) } else { None });
     log(json!({"t": "pre", "op": "ctor", "file_ok": text.is_some(), "ref_alist_ok": href.is_some(), "ref_enc_ok": enc_ref.is_some()}));
-    let (cp, cn, ca) = (cstr(&pat), cstr(&name), cstr(if via == "file" { &path } else { &alist }));
+    // raw (possibly non-UTF-8) bytes for a C string argument, when the scenario gives them; the string fields then hold the lossy decoding
+    let raw = |key: &str, dflt: &str| -> CString {
+        match sc[key].as_array() {
+            Some(b) => CString::new(b.iter().map(|x| x.as_u64().unwrap() as u8).filter(|&x| x != 0).collect::<Vec<u8>>()).unwrap(),
+            None => cstr(dflt),
+        }
+    };
+    let (cp, cn, ca) = (raw("pat_bytes", &pat), raw("name_bytes", &name), raw("arg_bytes", if via == "file" { &path } else { &alist }));
     let handle = unsafe {
         match (kind, via) {
             ("dec", "file") => ldpc_toolbox_decoder_ctor(ca.as_ptr(), cn.as_ptr(), cp.as_ptr()),
@@ -205,6 +212,26 @@ pub fn generate(a: &Args) {
     for bad in ["1,,0", "2", "1, 0", "1,0,", ",", "a", "1;0", " 1", "01", "1,1,x", "true,false"] {
         scs.push(json!({"kind": "dec", "via": "string", "alist": good_alist, "name": "Phif64", "pat": bad, "path": "", "ops": [], "why": "pattern"}));
         scs.push(json!({"kind": "enc", "via": "string", "alist": matrix(&systematic_code(12, 4, 9), 12).alist(), "name": "", "pat": bad, "path": "", "ops": [], "why": "pattern"}));
+    }
+    // C strings that are not valid UTF-8 (the string fields hold the lossy decoding, which is what a faithful wrapper sees at best)
+    let enc_alist = matrix(&systematic_code(12, 4, 9), 12).alist();
+    for bad in [&b"1,1,\xff"[..], &b"1,\x80,0"[..], &b"\xff"[..], &b"1,0\xc3"[..], &b"\xc0\xaf"[..], &b"1,1,0,1\xfe"[..]] {
+        let lossy = String::from_utf8_lossy(bad).to_string();
+        scs.push(json!({"kind": "dec", "via": "string", "alist": good_alist, "name": "Phif64", "pat": lossy, "pat_bytes": bad, "path": "", "ops": [], "why": "pattern"}));
+        scs.push(json!({"kind": "enc", "via": "string", "alist": enc_alist, "name": "", "pat": lossy, "pat_bytes": bad, "path": "", "ops": [], "why": "pattern"}));
+    }
+    for bad in [&b"Phif64\xff"[..], &b"\xffPhif64"[..], &b"\xff"[..], &b"HL\x80Phif64"[..]] {
+        let lossy = String::from_utf8_lossy(bad).to_string();
+        scs.push(json!({"kind": "dec", "via": "string", "alist": good_alist, "name": lossy, "name_bytes": bad, "pat": "", "path": "", "ops": [], "why": "name"}));
+    }
+    for k in 0..4usize {
+        // one digit of a good alist replaced by an invalid byte
+        let mut b = good_alist.clone().into_bytes();
+        let digits: Vec<usize> = b.iter().enumerate().filter(|(_, c)| c.is_ascii_digit() && **c != b'0').map(|(i, _)| i).collect();
+        let pos = digits[(k * 7 + 1) % digits.len()];
+        b[pos] = [0xffu8, 0x80, 0xc3, 0xfe][k];
+        let lossy = String::from_utf8_lossy(&b).to_string();
+        scs.push(json!({"kind": if k % 2 == 0 { "dec" } else { "enc" }, "via": "string", "alist": lossy, "arg_bytes": b, "name": "Phif64", "pat": "", "path": "", "ops": [], "why": "alist"}));
     }
     for p in [format!("{work}/does-not-exist.alist"), work.clone(), "".to_string(), "/proc/self/mem".to_string()] {
         scs.push(json!({"kind": "dec", "via": "file", "alist": "", "name": "Phif64", "pat": "", "path": p, "ops": [], "why": "file"}));
